@@ -213,25 +213,33 @@ def initValue (d : MmapedDict) (key : Key) : PyM (MmapedDict × List Effect) := 
 def ensure (d : MmapedDict) (key : Key) : PyM (MmapedDict × List Effect) :=
   if (d.positions.lookup key).isNone then initValue d key else .ok (d, [])
 
-/-- `read_value(key)` -/
-def readValue (d : MmapedDict) (key : Key) : PyM ((UInt64 × UInt64) × MmapedDict × List Effect) := do
-  let (d, tr) ← ensure d key
+/-- `pos = self._positions[key]; return _unpack_two_doubles(self._m, pos)` -/
+def loadValue (d : MmapedDict) (key : Key) : PyM (UInt64 × UInt64) :=
   match d.positions.lookup key with
   | none => .error .keyError
-  | some pos => do
-    let r ← unpackTwoDoubles d.file pos
-    .ok (r, d, tr)
+  | some pos => unpackTwoDoubles d.file pos
 
-/-- `write_value(key, value, timestamp)` -/
-def writeValue (d : MmapedDict) (key : Key) (v t : UInt64) : PyM (MmapedDict × List Effect) := do
-  let (d, tr) ← ensure d key
+/-- `pos = self._positions[key]; _pack_two_doubles(self._m, pos, value, timestamp)`: one 16-byte slice assignment -/
+def storeValue (d : MmapedDict) (key : Key) (v t : UInt64) : PyM (MmapedDict × List Effect) :=
   match d.positions.lookup key with
   | none => .error .keyError
   | some pos =>
     let bs := le64 v ++ le64 t
     if pos + bs.length ≤ d.capacity then
-      .ok ({ d with file := sliceWrite d.file pos bs }, tr ++ [.sliceWrite pos bs])
+      .ok ({ d with file := sliceWrite d.file pos bs }, [.sliceWrite pos bs])
     else .error .indexError
+
+/-- `read_value(key)` -/
+def readValue (d : MmapedDict) (key : Key) : PyM ((UInt64 × UInt64) × MmapedDict × List Effect) := do
+  let (d, tr) ← ensure d key
+  let r ← loadValue d key
+  .ok (r, d, tr)
+
+/-- `write_value(key, value, timestamp)` -/
+def writeValue (d : MmapedDict) (key : Key) (v t : UInt64) : PyM (MmapedDict × List Effect) := do
+  let (d, tr) ← ensure d key
+  let (d, tr') ← storeValue d key v t
+  .ok (d, tr ++ tr')
 
 /-- `read_all_values()` (the position is dropped), fully iterated -/
 def readAllValues (d : MmapedDict) : PyM (List (Key × UInt64 × UInt64)) := do
